@@ -10,6 +10,7 @@ import (
 	"strconv"
 	"time"
 
+	"verif/mc/covreg"
 	"verif/mc/hx"
 	"verif/mc/props"
 )
@@ -94,5 +95,7 @@ func main() {
 		}
 	}()
 	c(r)
-	os.Exit(r.Finish(props.Level[id]))
+	code := r.Finish(props.Level[id])
+	covreg.Dump()
+	os.Exit(code)
 }
